@@ -4,7 +4,7 @@
    algebra that ties the value / initial-condition arithmetic of
    _do_simplify_combine to the Thevenin (series) and Norton (parallel) sums of
    the group it replaces. *)
-Require Import LT.FieldSec LT.Circuit LT.RewriteEquiv LT.RewriteBranch LT.RewriteModel LT.RewriteMore.
+Require Import LT.FieldSec LT.Circuit LT.RewriteEquiv LT.RewriteBranch LT.RewriteModel LT.RewriteMore LT.RewriteKeyed.
 From Coq Require Import Permutation.
 Local Open Scope Z_scope.
 
@@ -1257,6 +1257,334 @@ Proof.
   transitivity (fsub (fadd (fmul (fadd c1 (fadd c2 f0)) (fadd v0 (fadd v0 f0))) f0) (fadd (fmul c1 v0) (fadd (fmul c2 v0) f0))); [ring | rewrite <- E; ring].
 Qed.
 End F4.
+
+(* ---- the executable contract check yields the hypotheses of the series theorem ---- *)
+Lemma walk_wwalk (l : list elem) : forall cur w, walk cur l = Some w -> wwalk cur w /\ map t_e w = l.
+Proof.
+  induction l as [|e l IH]; intros cur w H; cbn [walk] in H.
+  - inversion H. split; [exact I | reflexivity].
+  - destruct (negb (two_terminal_w e)) eqn:Et; [discriminate|]. apply negb_false_iff in Et.
+    unfold two_terminal_w in Et. apply andb_true_iff in Et. destruct Et as [El _]. apply Nat.eqb_eq in El.
+    assert (En : enodes e = [en1 e; en2 e]).
+    { unfold en1, en2. destruct (enodes e) as [|a [|b [|c l']]]; try discriminate. reflexivity. }
+    destruct (Nat.eqb (en1 e) cur) eqn:E1.
+    + apply Nat.eqb_eq in E1. destruct (walk (en2 e) l) as [w'|] eqn:Ew; [|discriminate]. inversion H; subst w.
+      destruct (IH _ _ Ew) as [W M]. split; [|cbn [map t_e fst]; rewrite M; reflexivity].
+      cbn [wwalk t_e t_fw t_nx fst snd]. split; [rewrite En, E1; reflexivity | exact W].
+    + destruct (Nat.eqb (en2 e) cur) eqn:E2; [|discriminate]. apply Nat.eqb_eq in E2.
+      destruct (walk (en1 e) l) as [w'|] eqn:Ew; [|discriminate]. inversion H; subst w.
+      destruct (IH _ _ Ew) as [W M]. split; [|cbn [map t_e fst]; rewrite M; reflexivity].
+      cbn [wwalk t_e t_fw t_nx fst snd]. split; [rewrite En, E2; reflexivity | exact W].
+Qed.
+Lemma interior_inner (w : list trip) : interior (tsteps w) = map zn (inner_nodes w).
+Proof. induction w as [|x w IH]; [reflexivity|]. destruct w as [|y w]; [reflexivity|].
+  change (tsteps (x :: y :: w)) with (tstep x :: tsteps (y :: w)).
+  change (interior (tstep x :: tsteps (y :: w))) with (snext (tstep x) :: interior (tsteps (y :: w))). rewrite IH. reflexivity. Qed.
+Lemma natmem_In x l : natmem x l = true <-> In x l.
+Proof. unfold natmem. rewrite existsb_exists. split; [intros [y [H E]]; apply Nat.eqb_eq in E; subst; exact H | intros H; exists x; split; [exact H | apply Nat.eqb_refl]]. Qed.
+Lemma nodup_nat_NoDup l : nodup_nat l = true -> NoDup l.
+Proof. induction l as [|x l IH]; intros H; [constructor|]. cbn [nodup_nat] in H. apply andb_true_iff in H. destruct H as [H1 H2].
+  constructor; [|apply IH; exact H2]. intros Hi. apply natmem_In in Hi. rewrite Hi in H1. discriminate. Qed.
+Lemma last_default (l : list nat) : forall b d d', last (b :: l) d = last (b :: l) d'.
+Proof. induction l as [|c l IH]; intros b d d'; [reflexivity|]. change (last (b :: c :: l) d) with (last (c :: l) d).
+  change (last (b :: c :: l) d') with (last (c :: l) d'). apply IH. Qed.
+Lemma last_cons (l : list nat) a d : last (a :: l) d = last l a.
+Proof. destruct l as [|b l]; [reflexivity|]. change (last (a :: b :: l) d) with (last (b :: l) d). apply last_default. Qed.
+Lemma lastn_last_of (w : list trip) : forall start, lastn (zn start) (tsteps w) = zn (last_of start w).
+Proof. unfold last_of. induction w as [|x w IH]; intros start; [reflexivity|].
+  change (lastn (zn start) (tsteps (x :: w))) with (lastn (zn (t_nx x)) (tsteps w)). rewrite IH.
+  cbn [map]. rewrite last_cons. reflexivity. Qed.
+(* the node part of chain_wf follows from the boolean checks of series_raw *)
+Theorem series_raw_nodes (w : list trip) (start : nat) :
+  nodup_nat (inner_nodes w) = true -> natmem start (inner_nodes w) = false ->
+  natmem (last_of start w) (inner_nodes w) = false -> natmem 0 (inner_nodes w) = false ->
+  NoDup (interior (tsteps w)) /\ ~ In (zn start) (interior (tsteps w)) /\
+  ~ In (lastn (zn start) (tsteps w)) (interior (tsteps w)) /\ (forall n, In n (interior (tsteps w)) -> 0 <= n).
+Proof.
+  intros H1 H2 H3 H4. rewrite interior_inner, lastn_last_of.
+  assert (NI : forall x, natmem x (inner_nodes w) = false -> ~ In (zn x) (map zn (inner_nodes w))).
+  { intros x Hx Hi. apply in_map_iff in Hi. destruct Hi as [y [E Hy]]. apply zn_inj in E. subst y.
+    apply natmem_In in Hy. congruence. }
+  split; [apply FinFun.Injective_map_NoDup; [intros x y; apply zn_inj | apply nodup_nat_NoDup; exact H1]|].
+  split; [apply NI; exact H2|]. split; [apply NI; exact H3|].
+  intros n Hn. apply in_map_iff in Hn. destruct Hn as [y [<- Hy]]. apply zn_nonneg. intros ->. apply natmem_In in Hy. congruence.
+Qed.
+
+(* ================= one series combination on a whole netlist ===================== *)
+Lemma terminals_app (S1 S2 : list elem) n : terminals_raw (S1 ++ S2) n = (terminals_raw S1 n + terminals_raw S2 n)%nat.
+Proof. unfold terminals_raw. induction S1 as [|a S1 IH]; [reflexivity|]. cbn [app fold_right]. rewrite IH. lia. Qed.
+Lemma terminals_perm (S1 S2 : list elem) n : Permutation S1 S2 -> terminals_raw S1 n = terminals_raw S2 n.
+Proof. unfold terminals_raw. induction 1; cbn [fold_right]; [reflexivity | rewrite IHPermutation; reflexivity | lia | congruence]. Qed.
+Lemma count_pos (n : nat) (l : list nat) : In n l -> (1 <= length (filter (Nat.eqb n) l))%nat.
+Proof. induction l as [|a l IH]; intros H; [destruct H|]. cbn [filter]. destruct H as [->|H].
+  - rewrite Nat.eqb_refl. cbn [length]. lia.
+  - destruct (Nat.eqb n a); cbn [length]; [lia | apply IH; exact H]. Qed.
+Lemma terminals_zero (S0 : list elem) n : terminals_raw S0 n = 0%nat -> forall e, In e S0 -> ~ In n (enodes e).
+Proof. unfold terminals_raw. induction S0 as [|a S0 IH]; intros H e He; [destruct He|]. cbn [fold_right] in H. destruct He as [->|He].
+  - intros Hi. pose proof (count_pos n (enodes e) Hi). lia.
+  - apply IH; [lia | exact He]. Qed.
+Lemma wwalk_first_node (w : list trip) a x : wwalk a (x :: w) -> In a (enodes (t_e x)) /\ In (t_nx x) (enodes (t_e x)).
+Proof. intros [H _]. rewrite H. destruct (t_fw x); cbn; auto. Qed.
+Lemma terminals_inner (w : list trip) : forall a n, wwalk a w -> In n (inner_nodes w) -> (2 <= terminals_raw (map t_e w) n)%nat.
+Proof.
+  induction w as [|x w IH]; intros a n W Hn; [destruct Hn|]. destruct w as [|y w]; [destruct Hn|].
+  change (inner_nodes (x :: y :: w)) with (t_nx x :: inner_nodes (y :: w)) in Hn. destruct W as [W1 W2].
+  change (map t_e (x :: y :: w)) with ([t_e x] ++ map t_e (y :: w)). rewrite terminals_app. destruct Hn as [<-|Hn].
+  - destruct (wwalk_first_node w (t_nx x) y W2) as [Hy _]. destruct (wwalk_first_node (y :: w) a x (conj W1 W2)) as [_ Hx].
+    assert (1 <= terminals_raw [t_e x] (t_nx x))%nat by (unfold terminals_raw; cbn [fold_right]; pose proof (count_pos _ _ Hx); lia).
+    assert (1 <= terminals_raw (map t_e (y :: w)) (t_nx x))%nat.
+    { change (map t_e (y :: w)) with ([t_e y] ++ map t_e w). rewrite terminals_app. unfold terminals_raw at 1. cbn [fold_right]. pose proof (count_pos _ _ Hy). lia. }
+    lia.
+  - pose proof (IH (t_nx x) n W2 Hn). lia.
+Qed.
+
+(* the wires that replace the other members, numbered from k *)
+Fixpoint idx (x : name) (l : list name) : nat := match l with [] => 0%nat | y :: l' => if name_eqb x y then 0%nat else S (idx x l') end.
+Definition wn_of (k : nat) (l : list name) (x : name) : name := NWire (k + idx x l).
+Lemma wires_map (l : list elem) : forall k, NoDup (map ename l) ->
+  map (fun e => Elem (wn_of k (map ename l) (ename e)) TW (enodes e) KwNone (f0 : K) None) l = mk_wires k l.
+Proof.
+  induction l as [|e l IH]; intros k ND; [reflexivity|]. cbn [map mk_wires]. inversion ND as [|? ? Hn ND']; subst. f_equal.
+  - unfold mk_wire, wn_of. cbn [idx]. rewrite (proj2 (name_eqb_eq _ _) eq_refl). rewrite Nat.add_0_r. reflexivity.
+  - rewrite <- (IH (S k) ND'). apply map_ext_in. intros a Ha. f_equal. unfold wn_of. cbn [idx].
+    destruct (name_eqb (ename a) (ename e)) eqn:E; [exfalso; apply name_eqb_eq in E; apply Hn; rewrite <- E; apply in_map; exact Ha|].
+    f_equal. lia.
+Qed.
+
+Lemma Permutation_filter {A} (f : A -> bool) (l l' : list A) : Permutation l l' -> Permutation (filter f l) (filter f l').
+Proof. induction 1; cbn [filter]; [constructor | destruct (f x); [constructor|]; assumption | destruct (f x), (f y); try constructor; apply Permutation_refl | eapply Permutation_trans; eassumption]. Qed.
+Lemma gsim_o_perm (Obs : obs_t K) IN IV (N1 N1' N2 N2' : list (sem K)) :
+  Permutation N1 N1' -> Permutation N2 N2' -> gsim_o Obs IN IV N1 N2 -> gsim_o Obs IN IV N1' N2'.
+Proof. intros P1 P2 S0 v ib H. destruct (S0 v ib (gphys_perm K _ _ v ib (Permutation_sym P1) H)) as [v' [ib' [A1 [A2 [H' O]]]]].
+  exists v', ib'. repeat split; try assumption; apply (gphys_perm K _ _ v' ib' P2 H'). Qed.
+Lemma idx_inj (l : list name) x y : In x l -> In y l -> idx x l = idx y l -> x = y.
+Proof. induction l as [|a l IH]; intros Hx Hy E; [destruct Hx|]. cbn [idx] in E.
+  destruct (name_eqb x a) eqn:Ex; destruct (name_eqb y a) eqn:Ey; try discriminate.
+  - apply name_eqb_eq in Ex, Ey. congruence.
+  - injection E as E. destruct Hx as [Hx|Hx]; [subst; rewrite (proj2 (name_eqb_eq _ _) eq_refl) in Ex; discriminate|].
+    destruct Hy as [Hy|Hy]; [subst; rewrite (proj2 (name_eqb_eq _ _) eq_refl) in Ey; discriminate|]. apply IH; assumption. Qed.
+Lemma lookup_all_map (S0 : list elem) (l : list elem) : NoDup (names S0) -> (forall e, In e l -> In e S0) -> lookup_all S0 (map ename l) = Ok l.
+Proof. intros ND. induction l as [|e l IH]; intros H; [reflexivity|]. cbn [map]. rewrite lookup_cons, (find_unique S0 e ND (H e (or_introl eq_refl))), IH; [reflexivity|].
+  intros e' He'. apply H. right. exact He'. Qed.
+
+Lemma rep_names_NoDup (S0 els : list elem) (first : name) (others : list name) (new : elem) (k : nat) :
+  NoDup (map ename els) -> (forall e, In e els -> In (ename e) (names S0)) ->
+  ~ In (ename new) (names S0) -> (forall j, ename new <> NWire j) -> (forall j, ~ In (NWire (k + j)) (names S0)) ->
+  NoDup (map (fun e => ename (rep first (fun x => nmem x others) new (wn_of k others) e)) els).
+Proof.
+  intros NDe Hin Fn Fw Fk. induction els as [|a l IH]; [constructor|]. cbn [map] in *. inversion NDe as [|? ? Hna NDe']; subst. constructor.
+  - intros Hi. apply in_map_iff in Hi. destruct Hi as [b [Eb Hb]].
+    assert (Hab : ename a <> ename b) by (intros E'; apply Hna; rewrite E'; apply in_map; exact Hb).
+    assert (HaS : In (ename a) (names S0)) by (apply Hin; left; reflexivity).
+    assert (HbS : In (ename b) (names S0)) by (apply Hin; right; exact Hb).
+    unfold rep in Eb.
+    destruct (name_eqb (ename a) first) eqn:A0; destruct (name_eqb (ename b) first) eqn:B0.
+    + apply name_eqb_eq in A0, B0. congruence.
+    + destruct (nmem (ename b) others); cbn [ename] in Eb; [exact (Fw _ (eq_sym Eb)) | apply Fn; rewrite <- Eb; exact HbS].
+    + destruct (nmem (ename a) others); cbn [ename] in Eb; [exact (Fw _ Eb) | apply Fn; rewrite Eb; exact HaS].
+    + destruct (nmem (ename a) others) eqn:Ao; destruct (nmem (ename b) others) eqn:Bo; cbn [ename] in Eb.
+      * unfold wn_of in Eb. injection Eb as Eb. apply Hab. apply (idx_inj others); [apply nmem_In; exact Ao | apply nmem_In; exact Bo | lia].
+      * unfold wn_of in Eb. apply (Fk (idx (ename a) others)). rewrite <- Eb. exact HbS.
+      * unfold wn_of in Eb. apply (Fk (idx (ename b) others)). rewrite Eb. exact HaS.
+      * exact (Hab (eq_sym Eb)).
+  - apply IH; [exact NDe' | intros e He; apply Hin; right; exact He].
+Qed.
+
+Theorem series_combine_sound (S0 : list elem) (path : list name) (start : nat) (els : list elem) (w : list trip)
+    (ms : list mem_t) m0 ms' (new : elem) (k : nat) :
+  NoDup (names S0) -> lookup_all S0 path = Ok els -> NoDup path -> walk start els = Some w ->
+  nodup_nat (inner_nodes w) = true -> natmem start (inner_nodes w) = false ->
+  natmem (last_of start w) (inner_nodes w) = false -> natmem 0 (inner_nodes w) = false ->
+  (forall n, In n (inner_nodes w) -> terminals_raw S0 n = 2%nat) ->
+  (forall x, In x w -> chain_el_ok (t_e x)) ->
+  ms = m0 :: ms' -> NoDup (map (fun m => ename (fst m)) ms) ->
+  Permutation (map (fun x => (t_e x, t_fw x)) (filter (fun x => nmem (ename (t_e x)) (map (fun m => ename (fst m)) ms)) w)) ms ->
+  chain_el_ok new -> enodes new = enodes (fst m0) -> tz new = tzsum ms -> sgn (snd m0) (te new) = tesum ms ->
+  ~ In (ename new) (names S0) -> (forall j, ename new <> NWire j) -> (forall j, ~ In (NWire (k + j)) (names S0)) ->
+  let rest := filter (fun e => negb (nmem (ename e) path)) S0 in
+  let wn := wn_of k (map (fun m => ename (fst m)) ms') in
+  let r := rep (ename (fst m0)) (fun x => nmem x (map (fun m => ename (fst m)) ms')) new wn in
+  let w2 := map (trep r) w in
+  let IN := mem (map zn (inner_nodes w)) in
+  let IR := mem (owns (tsteps w) ++ owns (tsteps w2)) in
+  let IV := mem (map zname (map (fun m => ename (fst m)) ms ++ ename new :: map (fun m => wn (ename (fst m))) ms')) in
+  (forall e, In e rest -> match branch_of e with Some _ => length (enodes e) = 2%nat | None => ext_of IN IV IR (esem e) end) ->
+  gsim_o (same_current (zn start) (tsteps w) (tsteps w2)) IN IV
+         (nsem S0) (nsem (filter (fun e => negb (nmem (ename e) (map (fun m => ename (fst m)) ms))) S0 ++ new :: mk_wires k (map fst ms'))).
+Proof.
+  intros ND Hl NDp Hw C1 C2 C3 C4 HT OK E NDm PERM OKn En Sz Se Fn Fw Fk rest wn r w2 IN IR IV HR.
+  destruct (walk_wwalk els start w Hw) as [W M].
+  destruct (lookup_all_spec S0 path els Hl) as [Np Hin].
+  set (order := map (fun m : elem * bool => ename (fst m)) ms) in *.
+  set (others := map (fun m : elem * bool => ename (fst m)) ms') in *.
+  assert (Nw : map (fun x => ename (t_e x)) w = path) by (rewrite <- (map_map t_e ename), M; exact Np).
+  assert (NDw : NoDup (map (fun x => ename (t_e x)) w)) by (rewrite Nw; exact NDp).
+  assert (NDe : NoDup (names els)) by (unfold names; rewrite Np; exact NDp).
+  (* members are chain elements *)
+  assert (Hmem : forall m, In m ms -> exists x, In x w /\ t_e x = fst m /\ t_fw x = snd m).
+  { intros m Hm. apply (Permutation_in _ (Permutation_sym PERM)) in Hm. apply in_map_iff in Hm. destruct Hm as [x [Hx Hf]].
+    apply filter_In in Hf. exists x. split; [exact (proj1 Hf)|]. destruct m; inversion Hx; split; reflexivity. }
+  assert (Hord_path : forall n, In n order -> In n path).
+  { intros n Hn. unfold order in Hn. apply in_map_iff in Hn. destruct Hn as [m [<- Hm]]. destruct (Hmem m Hm) as [x [Hx [Ex _]]].
+    rewrite <- Nw. apply in_map_iff. exists x. split; [rewrite Ex; reflexivity | exact Hx]. }
+  assert (Hmem_els : forall m, In m ms -> In (fst m) els).
+  { intros m Hm. destruct (Hmem m Hm) as [x [Hx [Ex _]]]. rewrite <- M, <- Ex. apply in_map. exact Hx. }
+  (* node part of the contract *)
+  destruct (series_raw_nodes w start C1 C2 C3 C4) as [G1 [G2 [G3 G4]]].
+  destruct (tsteps_sums w OK) as [TH1 _].
+  assert (WF : chain_wf (zn start) (tsteps w)).
+  { unfold chain_wf. repeat split; try assumption; [apply owns_NoDup; exact NDw|].
+    intros o Ho. destruct (owns_tsteps w o Ho) as [x [_ [-> _]]]. apply zname_pos. }
+  (* facts about the replacement *)
+  assert (Hm0 : In m0 ms) by (rewrite E; left; reflexivity).
+  assert (Rfirst : r (fst m0) = new) by (unfold r, rep; rewrite (proj2 (name_eqb_eq _ _) eq_refl); reflexivity).
+  assert (Rother : forall m, In m ms' -> r (fst m) = Elem (wn (ename (fst m))) TW (enodes (fst m)) KwNone f0 None).
+  { intros m Hm. unfold r, rep. fold others. destruct (name_eqb (ename (fst m)) (ename (fst m0))) eqn:En0.
+    - exfalso. apply name_eqb_eq in En0. pose proof NDm as NDm'. unfold order in NDm'. rewrite E in NDm'. cbn [map] in NDm'. apply NoDup_cons_iff in NDm'. destruct NDm' as [Hn _].
+      apply Hn. rewrite <- En0. apply in_map_iff. exists m. split; [reflexivity | exact Hm].
+    - assert (Ho : nmem (ename (fst m)) others = true) by (apply nmem_In; unfold others; apply in_map_iff; exists m; split; [reflexivity | exact Hm]).
+      rewrite Ho. reflexivity. }
+  assert (Rkeep : forall e, nmem (ename e) order = false -> r e = e).
+  { intros e He. unfold r, rep. fold others. unfold order in He. rewrite E in He. cbn [map nmem existsb] in He. apply orb_false_iff in He. destruct He as [H1 H2].
+    rewrite H1. change (existsb (name_eqb (ename e)) (map (fun m : elem * bool => ename (fst m)) ms')) with (nmem (ename e) others) in H2. rewrite H2. reflexivity. }
+  (* names of the rewritten chain are distinct *)
+  assert (ND2 : NoDup (map (fun x => ename (t_e x)) w2)).
+  { unfold w2. rewrite map_map. unfold trep, t_e at 1. cbn [fst].
+    change (fun x : trip => ename (r (fst (fst x)))) with (fun x : trip => ename (r (t_e x))).
+    rewrite <- (map_map t_e (fun e => ename (r e))), M.
+    apply (rep_names_NoDup S0); try assumption. intros e He. apply in_map. apply Hin. exact He. }
+  (* frames *)
+  assert (HIN : forall n, IN n = true <-> In n (interior (tsteps w))) by (intros n; unfold IN; rewrite mem_In, interior_inner; reflexivity).
+  assert (HIR : forall o, IR o = true <-> In o (owns (tsteps w) ++ owns (tsteps w2))) by (intros o; unfold IR; apply mem_In).
+  assert (HIV : forall o, IV o = true <-> In o (map zname (order ++ ename new :: map (fun m => wn (ename (fst m))) ms'))) by (intros o; unfold IV; apply mem_In).
+  destruct (series_equiv_inplace start w ms m0 ms' new wn IN IV IR W OK WF E PERM NDm OKn En Sz Se ND2 HIN HIR HIV) as [W2 [WF2 [S12 _]]].
+  (* the rest of the netlist *)
+  assert (P0 : Permutation S0 (els ++ rest)) by (apply perm_split; assumption).
+  assert (Hrest_nodes : forall e, In e rest -> forall n, In n (inner_nodes w) -> ~ In n (enodes e)).
+  { intros e He n Hn. apply (terminals_zero rest n); [|exact He].
+    pose proof (HT n Hn) as T2. rewrite (terminals_perm _ _ n P0), terminals_app in T2.
+    pose proof (terminals_inner w start n W Hn) as T1. rewrite M in T1. lia. }
+  assert (Hrest_name : forall e, In e rest -> ~ In (ename e) path /\ In (ename e) (names S0)).
+  { intros e He. apply filter_In in He. destruct He as [He1 He2]. split; [apply nmem_false; apply negb_true_iff; exact He2 | apply in_map; exact He1]. }
+  assert (Hchain_names : forall o, In o (owns (tsteps w) ++ owns (tsteps w2)) \/ In o (map zname (order ++ ename new :: map (fun m => wn (ename (fst m))) ms')) ->
+            exists nm, o = zname nm /\ (In nm path \/ nm = ename new \/ exists j, nm = NWire (k + j))).
+  { intros o [Ho|Ho].
+    - apply in_app_or in Ho. destruct Ho as [Ho|Ho].
+      + destruct (owns_tsteps w o Ho) as [x [Hx [-> _]]]. eexists. split; [reflexivity|]. left. rewrite <- Nw. apply in_map_iff. exists x. split; [reflexivity | exact Hx].
+      + destruct (owns_tsteps w2 o Ho) as [x [Hx [-> _]]]. eexists. split; [reflexivity|].
+        unfold w2 in Hx. apply in_map_iff in Hx. destruct Hx as [y [<- Hy]]. unfold trep, t_e at 1 2 3. cbn [fst]. change (fst (fst y)) with (t_e y).
+        unfold r, rep. fold others. destruct (name_eqb (ename (t_e y)) (ename (fst m0))); [right; left; reflexivity|].
+        destruct (nmem (ename (t_e y)) others); cbn [ename]; [right; right; eexists; reflexivity|].
+        left. rewrite <- Nw. apply in_map_iff. exists y. split; [reflexivity | exact Hy].
+    - apply in_map_iff in Ho. destruct Ho as [nm [<- Hnm]]. exists nm. split; [reflexivity|].
+      apply in_app_or in Hnm. destruct Hnm as [Hnm|[<-|Hnm]]; [left; apply Hord_path; exact Hnm | right; left; reflexivity|].
+      apply in_map_iff in Hnm. destruct Hnm as [m [<- _]]. right. right. eexists. reflexivity. }
+  assert (RO : Forall (rest_ok IN IV IR) rest).
+  { apply Forall_forall. intros e He. specialize (HR e He). unfold rest_ok. destruct (branch_of e) as [bch|] eqn:Eb; [|exact HR].
+    destruct (Hrest_name e He) as [Hnp HnS].
+    assert (Hfresh : forall o, In o (owns (tsteps w) ++ owns (tsteps w2)) \/ In o (map zname (order ++ ename new :: map (fun m => wn (ename (fst m))) ms')) -> o <> zname (ename e)).
+    { intros o Ho Eo. destruct (Hchain_names o Ho) as [nm [-> [H1|[H1|[j H1]]]]]; apply zname_inj in Eo; subst nm.
+      - exact (Hnp H1). - apply Fn. rewrite <- H1. exact HnS. - apply (Fk j). rewrite <- H1. exact HnS. }
+    assert (Hnode : forall n, In n (enodes e) -> IN (zn n) = false).
+    { intros n Hn. unfold IN. apply mem_false. intros Hi. apply in_map_iff in Hi. destruct Hi as [n' [En' Hn']]. apply zn_inj in En'. subst n'.
+      exact (Hrest_nodes e He n Hn' Hn). }
+    assert (En12 : In (en1 e) (enodes e) /\ In (en2 e) (enodes e)).
+    { unfold en1, en2. destruct (enodes e) as [|a [|b [|c l']]]; try discriminate. cbn. auto. }
+    split; [exact HR|]. split; [apply Hnode; apply En12|]. split; [apply Hnode; apply En12|].
+    split; [unfold IV | unfold IR]; apply mem_false; intros Hi; [apply (Hfresh _ (or_intror Hi)) | apply (Hfresh _ (or_introl Hi))]; reflexivity. }
+  pose proof (rewrite_preserves_phys (same_current (zn start) (tsteps w) (tsteps w2)) IN IV IR (map t_e w) (map t_e w2) rest RO S12) as G.
+  (* back to the netlists *)
+  assert (Ew2 : map t_e w2 = map r els).
+  { unfold w2. rewrite map_map. unfold trep, t_e at 1. cbn [fst]. change (fun x : trip => r (fst (fst x))) with (fun x : trip => r (t_e x)).
+    rewrite <- (map_map t_e r), M. reflexivity. }
+  rewrite M, Ew2 in G.
+  assert (Lo : lookup_all els order = Ok (map fst ms)).
+  { unfold order. rewrite <- (map_map fst ename). apply lookup_all_map; [exact NDe|]. intros e He. apply in_map_iff in He. destruct He as [m [<- Hm]]. apply Hmem_els. exact Hm. }
+  assert (Pe : Permutation els (map fst ms ++ filter (fun e => negb (nmem (ename e) order)) els)) by (apply perm_split; assumption).
+  assert (Pr : Permutation (map r els) (filter (fun e => negb (nmem (ename e) order)) els ++ new :: mk_wires k (map fst ms'))).
+  { apply Permutation_trans with (map r (map fst ms ++ filter (fun e => negb (nmem (ename e) order)) els)); [apply Permutation_map; exact Pe|].
+    rewrite map_app. apply Permutation_trans with ((new :: mk_wires k (map fst ms')) ++ filter (fun e => negb (nmem (ename e) order)) els); [|apply Permutation_app_comm].
+    apply Permutation_app.
+    - rewrite E. cbn [map]. rewrite Rfirst. constructor.
+      assert (NDo : NoDup (map ename (map fst ms'))).
+      { rewrite map_map. pose proof NDm as NDm'. unfold order in NDm'. rewrite E in NDm'. cbn [map] in NDm'. apply NoDup_cons_iff in NDm'. exact (proj2 NDm'). }
+      rewrite <- (wires_map (map fst ms') k NDo). rewrite !map_map. cbn [fst]. apply Permutation_refl'.
+      apply map_ext_in. intros m Hm. rewrite (Rother m Hm). unfold wn, others. reflexivity.
+    - apply Permutation_refl'. transitivity (map (fun e : elem => e) (filter (fun e => negb (nmem (ename e) order)) els)); [|apply map_id].
+      apply map_ext_in. intros e He. apply filter_In in He. apply Rkeep. apply negb_true_iff. exact (proj2 He). }
+  assert (Pout : Permutation (filter (fun e => negb (nmem (ename e) order)) S0 ++ new :: mk_wires k (map fst ms')) (map r els ++ rest)).
+  { assert (Pf : Permutation (filter (fun e => negb (nmem (ename e) order)) S0) (filter (fun e => negb (nmem (ename e) order)) els ++ rest)).
+    { apply Permutation_trans with (filter (fun e => negb (nmem (ename e) order)) (els ++ rest)); [apply Permutation_filter; exact P0|].
+      rewrite filter_app. apply Permutation_app_head. apply Permutation_refl'. apply filter_all.
+      intros e He. apply negb_true_iff. apply nmem_false. intros Hi. exact (proj1 (Hrest_name e He) (Hord_path _ Hi)). }
+    apply Permutation_trans with ((filter (fun e => negb (nmem (ename e) order)) els ++ rest) ++ new :: mk_wires k (map fst ms')); [apply Permutation_app_tail; exact Pf|].
+    apply Permutation_trans with ((filter (fun e => negb (nmem (ename e) order)) els ++ new :: mk_wires k (map fst ms')) ++ rest).
+    - rewrite <- !app_assoc. apply Permutation_app_head. apply Permutation_app_comm.
+    - apply Permutation_app_tail. apply Permutation_sym. exact Pr. }
+  unfold nsem in *. eapply gsim_o_perm; [| |exact G].
+  - apply Permutation_map. apply Permutation_sym. exact P0.
+  - apply Permutation_map. apply Permutation_sym. exact Pout.
+Qed.
+
+(* what do_combine does to the netlist *)
+Lemma do_combine_shape vr (S0 : list elem) used (order : list name) sames add series common signed st' :
+  do_combine vr S0 (CState S0 used false) order sames add series common signed = Ok st' ->
+  exists els new, lookup_all S0 order = Ok els /\
+    new_elem vr els sames add common signed (fresh_name (match els with e :: _ => etyp e | [] => TX end) (names S0 ++ used)) = Ok new /\
+    c_net st' = filter (fun e => negb (nmem (ename e) order)) S0 ++ new :: (if series then mk_wires (count_wires S0) (tl els) else []).
+Proof.
+  unfold do_combine. destruct (lookup_all S0 order) as [els|]; [|discriminate].
+  destruct (new_elem vr els sames add common signed _) as [new|] eqn:En; [|discriminate]. cbn [c_net].
+  destruct (negb (forallb (fun x => nmem x (names S0)) order)); [discriminate|]. intros H. inversion H; subst. cbn [c_net].
+  exists els, new. repeat split; assumption.
+Qed.
+
+Lemma port_sim_to_o IN IV IR (F1 F2 : list (sem K)) : port_sim IN IV IR F1 F2 -> port_sim_o (fun _ _ _ _ => True) IN IV IR F1 F2.
+Proof. intros H v ib I0. destruct (H v ib I0) as [v' [ib' [A1 [A2 [A3 [A4 A5]]]]]]. exists v', ib'. repeat split; try assumption; apply A3. Qed.
+
+(* one parallel combination on a whole netlist *)
+Theorem parallel_combine_sound (S0 : list elem) (a b : nat) (ms : list mem_t) m0 (new : elem) t :
+  NoDup (names S0) -> (forall m, In m ms -> In (fst m) S0) -> NoDup (map (fun m => ename (fst m)) ms) ->
+  (norton_type t \/ t = TL) -> all_type t ms -> (forall m, In m ms -> across a b m) ->
+  etyp new = t -> valid new -> across a b (new, snd m0) -> par_sums_ok ms m0 new ->
+  ~ In (ename new) (names S0) ->
+  let order := map (fun m => ename (fst m)) ms in
+  let rest := filter (fun e => negb (nmem (ename e) order)) S0 in
+  let IN := fun _ : Z => false in
+  let IR := mem (map (fun m => zname (ename (fst m))) ms ++ [zname (ename new)]) in
+  (forall e, In e rest -> match branch_of e with Some _ => length (enodes e) = 2%nat | None => ext_of IN IR IR (esem e) end) ->
+  gsim IN IR (nsem S0) (nsem (rest ++ [new])) /\ gsim IN IR (nsem (rest ++ [new])) (nsem S0).
+Proof.
+  intros ND Hin NDm NT AT AC Et Vn An PS Fn order rest IN IR HR.
+  assert (Lo : lookup_all S0 order = Ok (map fst ms)).
+  { unfold order. rewrite <- (map_map fst ename). apply lookup_all_map; [exact ND|]. intros e He. apply in_map_iff in He. destruct He as [m [<- Hm]]. apply Hin. exact Hm. }
+  assert (P0 : Permutation S0 (map fst ms ++ rest)) by (apply perm_split; assumption).
+  assert (HIR : forall o, IR o = true <-> In o (map (fun m => zname (ename (fst m))) ms ++ [zname (ename new)])) by (intros o; unfold IR; apply mem_In).
+  assert (PE : port_equiv IN IR IR (nsem (map fst ms)) [esem new]).
+  { destruct NT as [NT| ->].
+    - apply (parallel_norton_equiv t a b ms m0 new); assumption.
+    - apply (parallel_L_equiv a b ms m0 new); try assumption. intros o Ho. apply HIR. exact Ho. }
+  assert (RO : Forall (rest_ok IN IR IR) rest).
+  { apply Forall_forall. intros e He. specialize (HR e He). unfold rest_ok. destruct (branch_of e) as [bch|] eqn:Eb; [|exact HR].
+    assert (Hn : IR (zname (ename e)) = false).
+    { unfold IR. apply mem_false. intros Hi. apply in_app_or in Hi. apply filter_In in He. destruct He as [He1 He2].
+      destruct Hi as [Hi|[Hi|[]]].
+      - apply in_map_iff in Hi. destruct Hi as [m [Em Hm]]. apply zname_inj in Em. apply negb_true_iff in He2. apply nmem_false in He2.
+        apply He2. unfold order. rewrite <- Em. apply in_map_iff. exists m. split; [reflexivity | exact Hm].
+      - apply zname_inj in Hi. apply Fn. rewrite Hi. apply in_map. exact He1. }
+    repeat split; try reflexivity; assumption. }
+  destruct PE as [S12 S21].
+  assert (G1 : gsim_o (fun _ _ _ _ => True) IN IR (nsem (map fst ms ++ rest)) (nsem ([new] ++ rest))).
+  { apply (rewrite_preserves_phys _ IN IR IR); [exact RO | apply port_sim_to_o; exact S12]. }
+  assert (G2 : gsim_o (fun _ _ _ _ => True) IN IR (nsem ([new] ++ rest)) (nsem (map fst ms ++ rest))).
+  { apply (rewrite_preserves_phys _ IN IR IR); [exact RO | apply port_sim_to_o; exact S21]. }
+  assert (Pn : Permutation (rest ++ [new]) ([new] ++ rest)) by apply Permutation_app_comm.
+  unfold nsem in *. split.
+  - intros v ib H. destruct (gsim_o_perm _ IN IR _ _ _ _ (Permutation_map esem (Permutation_sym P0)) (Permutation_map esem (Permutation_sym Pn)) G1 v ib H) as [v' [ib' [A1 [A2 [A3 _]]]]].
+    exists v', ib'. auto.
+  - intros v ib H. destruct (gsim_o_perm _ IN IR _ _ _ _ (Permutation_map esem (Permutation_sym Pn)) (Permutation_map esem (Permutation_sym P0)) G2 v ib H) as [v' [ib' [A1 [A2 [A3 _]]]]].
+    exists v', ib'. auto.
+Qed.
 End Sem.
 
 Arguments zn : clear implicits. Arguments branch_of {K}. Arguments esem {K}. Arguments nsem {K}. Arguments valid {K}.
@@ -1286,3 +1614,8 @@ Print Assumptions rewrite_preserves_phys.
 Print Assumptions combine_series_refuted.
 Print Assumptions perm_invariant_refuted.
 Print Assumptions combine_parallel_refuted.
+Print Assumptions walk_wwalk.
+Print Assumptions series_raw_nodes.
+Print Assumptions series_combine_sound.
+Print Assumptions do_combine_shape.
+Print Assumptions parallel_combine_sound.
